@@ -1,7 +1,10 @@
 //! In-process property checks against libwild / linker-utils (built with --cfg wild_verif).
 //! Usage: vcheck <subcommand> --seed N --cases N [--replay FILE]
 //! Prints one JSON object on stdout describing what was explored and any violation found.
+mod c11;
+mod c12;
 mod c13;
+mod c14;
 mod c29;
 mod util;
 
@@ -13,7 +16,10 @@ fn main() {
     }
     let opts = util::Opts::parse(&args[2..]);
     let out = match args[1].as_str() {
+        "c11" => c11::run(&opts),
+        "c12" => c12::run(&opts),
         "c13" => c13::run(&opts),
+        "c14" => c14::run(&opts),
         "c29" => c29::run(&opts),
         other => {
             eprintln!("unknown check {other}");
